@@ -241,21 +241,50 @@ def r03_7(prog, rep):
         rep.undecided("R03.7", "unmarshal:fallback", "", "structured routine not found")
         return
     f = C.call_of(prog, fb)
+    raw_req = lambda x: x == ("const", "__required_keys__") or (x[0] == "attr" and x[2] == "__required_keys__")  # noqa: E731
+    # package helpers that read the runtime's __required_keys__ (the routine may go through one)
+    readers = {}
+    for q, g in prog.functions.items():
+        if g.cls is None and q.startswith(f"{C.INSP}."):
+            try:
+                gps = P.paths_of(prog, g)
+            except Exception:
+                continue
+            if any(T.contains(tm, raw_req) for pth in gps for tm in pth.all_terms()):
+                readers[q] = gps
+    has_req = lambda x: raw_req(x) or (x[0] == "call" and T.refname(x[1]) in readers)  # noqa: E731
     enforced = False
+    sites = []
     for c in prog.mro(fb):
         for m in c.methods.values():
-            for pth in P.paths_of(prog, m):
+            mps = P.paths_of(prog, m)
+            for pth in mps:
                 for tm in pth.all_terms():
-                    if T.contains(tm, lambda x: x == ("const", "__required_keys__") or (x[0] == "attr" and x[2] == "__required_keys__")):
+                    if T.contains(tm, has_req):
                         enforced = True
+                        if T.contains(tm, raw_req):
+                            sites.append((m.qualname, mps))
+                        for x in T.walk(tm):
+                            if x[0] == "call" and T.refname(x[1]) in readers:
+                                sites.append((T.refname(x[1]), readers[T.refname(x[1])]))
     raises = any(pth.exit[0] == "raise" for pth in P.paths_of(prog, f)) or enforced
     # the outcome is decided by the required-keys test alone: no path returns under the very test outcome that raises
-    has_req = lambda x: x == ("const", "__required_keys__") or (x[0] == "attr" and x[2] == "__required_keys__")  # noqa: E731
     ps = P.paths_of(prog, f)
     on_raise = {(g, pol) for pth in ps if pth.exit[0] == "raise" for g, pol in pth.guards() if T.contains(g, has_req)}
     leaks = [pth for pth in ps if pth.exit[0] == "return" and not any((g, not pol) in on_raise for g, pol in pth.guards() if T.contains(g, has_req))]
     if on_raise:
         rep.check(not leaks, "R03.7", fb.qualname, f.loc, "a value with required keys missing never reaches the constructor (the required-keys test alone decides)", "a path builds the TypedDict although the required-keys test found keys missing: a further condition (e.g. __total__, which only describes the keys of the last class statement) lets a TypedDict without its required keys through", detail="typeddict-required-unconditional")
+    # the runtime computes __required_keys__ from the annotations *as written*: a NotRequired[...] / Required[...] inside a string
+    # annotation (from __future__ import annotations, or a quoted recursive member) is invisible to it.  Whoever reads the
+    # attribute must correct it from the evaluated hints (get_type_hints(..., include_extras=True)).
+    if sites:
+        def corrected(gps):
+            hints = any(T.contains(tm, lambda x: T.is_call_to(x, "typing.get_type_hints") and dict(x[3]).get("include_extras") == ("const", True)) for pth in gps for tm in pth.all_terms())
+            marker = any(T.contains(tm, lambda x: T.refname(x) in ("typing.NotRequired", "typing_extensions.NotRequired")) for pth in gps for tm in pth.all_terms())
+            return hints and marker
+        ok_eval = all(corrected(gps) for _q, gps in sites)
+        where = sorted({q for q, _ in sites})[0]
+        rep.check(ok_eval, "R03.7", where, f.loc, "the required keys are corrected from the evaluated hints (NotRequired / Required written in string annotations)", "the required keys are taken from the runtime's __required_keys__ as they are: under `from __future__ import annotations` (or for a quoted member) the runtime cannot see NotRequired[...], lists the key as required, and a valid value that omits it is rejected -- unmarshal(Movie, {'title': 'Alien'}) raises 'missing required keys: [year]' for `year: NotRequired[int]`", detail="typeddict-required-evaluated")
     rep.check(enforced and raises, "R03.7", fb.qualname, f.loc, "required TypedDict keys are checked before the mapping is built", "the structured routine never consults __required_keys__: for a TypedDict target, dict(**kwargs) accepts any subset of the fields — unmarshal(Movie, {}) == {} although `title` and `year` are required (dataclasses and named tuples reject the same input)", detail="typeddict-required")
 
 
